@@ -619,14 +619,15 @@ func (exec *Executor) executeDecimalMethod(
 		)
 	}
 
-	// Count the digits before the decimal point.
+	// Count the digits before the decimal point, from the first significant
+	// one on: an integer part of zero has none.
 	numStr := strconv.FormatFloat(rounded, 'f', -1, 64)
 	count := 0
 	for _, ch := range numStr {
 		if ch == '.' {
 			break
 		}
-		if '1' <= ch && ch <= '9' {
+		if '1' <= ch && ch <= '9' || ch == '0' && count > 0 {
 			count++
 		}
 	}
